@@ -340,6 +340,9 @@ class patched(object):
 # ---------------------------------------------------------------------------------------------------
 #   ["add", idx, term, cmdspec]   cmdspec = {"n": len, "s": seed} | {"hex": "..."} | {"str": "..."}
 #   ["clear"] ["delfrom", n] ["delto", n] ["setci", v] ["timer"] ["reopen", "destroy"|"abandon"]
+#   ["settv", term, vote]         setTermAndVote (stores the whole meta dict at once); skipped silently on a
+#                                 tree whose journal has no such method
+#   ["crashat", ["delto", n], k, t]   head drop really killed at / before its rename, then reopened
 def cmd_of(spec):
     if "hex" in spec:
         return bytes.fromhex(spec["hex"])
@@ -366,7 +369,7 @@ def op_line(op):
         return "add %d %d %s" % (op[1], op[2], to_bytes(cmd_of(op[3])).hex() or "-")
     if k in ("delfrom", "delto", "setci"):
         return "%s %d" % (k, op[1])
-    return k            # clear, timer, reopen
+    return k            # clear, timer, reopen, settv
 
 
 def ops_hash(obj):
@@ -441,9 +444,18 @@ class Real(object):
                 j.setRaftCommitIndex(op[1])
             elif k == "timer":
                 j.onOneSecondTimer()
+            elif k == "settv":
+                j.setTermAndVote(op[1], op[2])
             else:
                 raise ValueError("bad op %r" % (op,))
         return list(self.rec.log)
+
+    def has_tv(self):
+        return hasattr(self.j, "setTermAndVote")
+
+    def tv(self):
+        """(term, vote) as the journal reports it; (0, None) on a tree without the method"""
+        return tuple(self.j.getTermAndVote()) if hasattr(self.j, "getTermAndVote") else (0, None)
 
     # -- observation
     def cur(self):
@@ -656,7 +668,7 @@ def open_image(jm, path, img):
         return {"err": "emptyFile" if "empty" in str(e) else "ValueError", "disk": disk}
     except Exception as e:                              # noqa
         return {"err": type(e).__name__, "disk": disk}
-    return {"real": r, "len": len(r.j), "cur": r.cur(), "ci": r.j.getRaftCommitIndex(),
+    return {"real": r, "len": len(r.j), "cur": r.cur(), "ci": r.j.getRaftCommitIndex(), "tv": r.tv(),
             "ents": r.entries(), "prims": r.open_prims, "disk": disk}
 
 
@@ -804,6 +816,8 @@ def mem_apply(mj, op):
         mj.setRaftCommitIndex(op[1])
     elif k == "timer":
         mj.onOneSecondTimer()
+    elif k == "settv" and hasattr(mj, "setTermAndVote"):
+        mj.setTermAndVote(op[1], op[2])
 
 
 def short_ents(es, limit=6):
@@ -827,7 +841,7 @@ def crash_monitor(op, old, res, ci, allowed_ci):
     if ci not in allowed_ci:
         return ("journal.meta:commit-index-never-set",
                 "commit index %r after reopen is not among the admissible ones %s (values passed to setRaftCommitIndex; "
-                "the default 1 only while no .meta had been stored)" % (ci, sorted(allowed_ci)))
+                "the default 1 only while no commit index had been stored)" % (ci, sorted(allowed_ci)))
     n = len(old)
     if k == "add":
         e = (to_bytes(cmd_of(op[3])), op[1], op[2])
@@ -962,13 +976,15 @@ class RandomSource(object):
             return ["setci", rng.choice([0, 1, n, rng.randrange(1000), U32 + rng.randrange(5)])]
         if r < 0.18:
             return ["timer"]
-        if r < 0.20:
+        if r < 0.23:
+            return ["settv", rng.randrange(6), rng.choice([None, "n1:1", "n2:2"])]
+        if r < 0.25:
             return ["clear"]
-        if r < 0.20 + w_del:
+        if r < 0.25 + w_del:
             back = rng.choice([0, 1, 1, 2, 9, 10, 11, 20, 25, rng.randrange(n + 1)])
             return ["delfrom", rng.choice([max(n - back, 0), n + 3, rng.randrange(n + 1)])] if rng.random() < 0.85 \
                 else ["delfrom", 0]
-        if r < 0.20 + w_del + 0.08:
+        if r < 0.25 + w_del + 0.08:
             op = ["delto", rng.choice([0, 1, 1, 2, n, max(n - 1, 0), n + 2, rng.randrange(n + 1)])]
             if self.crashat and rng.random() < 0.3:
                 # head drop killed at or before its rename (leaves a stale <journal>.tmp), then reopened
@@ -1012,6 +1028,9 @@ def run_case(jm, model, path, source, factory="FileJournal", cov=None, rng=None,
     ops = res["ops"]
     ref, mj = [], jm.MemoryJournal()
     real = None
+    # what the statement says about the meta data, model-free: the commit index last set (ci_cur), whether
+    # it still waits for the timer (pending), what a reopen must give (ci_disk), the (term, vote) last stored
+    mref = {"ci_cur": 1, "ci_disk": 1, "pending": False, "tv": (0, None)}
 
     def disagree(note, m, i):
         if res["disagreement"] is None:
@@ -1040,6 +1059,16 @@ def run_case(jm, model, path, source, factory="FileJournal", cov=None, rng=None,
             violate(site, "memoryjournal-divergence", "after op #%d FileJournal %s, MemoryJournal %s"
                     % (len(ops), short_ents(got), short_ents(mem)))
             return
+        if site == "reopen":
+            if real.tv() != mref["tv"]:
+                violate("setTermAndVote", "not-persisted", "after op #%d %s getTermAndVote() = %r, last stored was %r"
+                        % (len(ops), ops[-1][:2], real.tv(), mref["tv"]))
+            if real.j.getRaftCommitIndex() != mref["ci_disk"]:
+                violate("meta", "commit-index-after-reopen", "after op #%d %s getRaftCommitIndex() = %r, the value last "
+                        "written by the timer / setTermAndVote was %r" % (len(ops), ops[-1][:2], real.j.getRaftCommitIndex(), mref["ci_disk"]))
+        elif real.j.getRaftCommitIndex() != mref["ci_cur"] or real.tv() != mref["tv"]:
+            violate("meta", "in-memory-value", "after op #%d commit index %r / term+vote %r, expected %r / %r"
+                    % (len(ops), real.j.getRaftCommitIndex(), real.tv(), mref["ci_cur"], mref["tv"]))
         if ref:
             if real.j[-1] != ref[-1] or real.j[0] != ref[0]:
                 violate(site, "list-divergence", "j[-1]/j[0] differ from the list after op #%d" % len(ops))
@@ -1096,6 +1125,8 @@ def run_case(jm, model, path, source, factory="FileJournal", cov=None, rng=None,
             op = source.next(real.view())
             if op is None:
                 break
+            if op[0] == "settv" and not real.has_tv():
+                continue                                  # tree without setTermAndVote: op skipped silently
             stale = os.path.exists(path + ".tmp")
             if op[0] == "crashat":
                 op, _ = concretise_crashat(jm, path + "-dry", real, op)
@@ -1153,6 +1184,19 @@ def run_case(jm, model, path, source, factory="FileJournal", cov=None, rng=None,
             # ---- reference
             ref_apply(ref, op)
             mem_apply(mj, op)
+            if k == "setci":
+                mref["ci_cur"], mref["pending"] = op[1], True
+            elif k == "timer" and mref["pending"]:
+                mref["ci_disk"], mref["pending"] = mref["ci_cur"], False
+            elif k == "settv":
+                if mref["pending"]:
+                    cov.hit("settv.with_pending_ci")
+                mref["tv"] = (op[1], op[2])
+                mref["ci_disk"], mref["pending"] = mref["ci_cur"], False
+                if not prims:
+                    cov.hit("settv.no_prims")
+            elif k in ("reopen", "crashat"):
+                mref["ci_cur"], mref["pending"] = mref["ci_disk"], False
             # ---- coverage
             if k == "add":
                 n = cmd_len(op[3])
@@ -1186,6 +1230,8 @@ def run_case(jm, model, path, source, factory="FileJournal", cov=None, rng=None,
                     cov.hit("delfrom.hdr10")
             elif k == "timer":
                 cov.hit("timer.saved" if prims else "timer.idle")
+                if not prims and ops[:-1] and ops[-2][0] == "settv":
+                    cov.hit("timer.idle_after_settv")
             elif k == "delto":
                 cov.hit("delto.kept=%s" % ("0" if not len(real.j) else "some"))
                 kinds = [p[0] for p in prims]
